@@ -54,8 +54,8 @@ def _stages(tier):
     th = tier == 'thorough'
     lit_args = lambda fs: dict(maxlen=LIT_MAXLEN, block=LIT_BLOCK, fsample=fs)   # noqa: E731
     st = []
-    for flv, rt, dual, fs, lr in (('asan', 20000 if th else 800, 8000 if th else 400, 2 if th else 16, 2000 if th else 80),
-                                  ('opt', 300000 if th else 8000, 150000 if th else 4000, 1 if th else 4, 20000 if th else 600)):
+    for flv, rt, dual, fs, lr in (('asan', 20000 if th else 1200, 8000 if th else 500, 2 if th else 12, 2000 if th else 100),
+                                  ('opt', 300000 if th else 15000, 150000 if th else 6000, 1 if th else 3, 20000 if th else 1000)):
         st.append(dict(name='rt-' + flv, harness='h_io12', flavour=flv, cases=rt, sub='rt'))
         st.append(dict(name='dual-' + flv, harness='h_io12', flavour=flv, cases=dual, sub='dual'))
         st.append(dict(name='lit-' + flv, harness='h_io12', flavour=flv, cases=NBLOCKS, sub='lit', args=lit_args(fs)))
@@ -70,25 +70,26 @@ def _minima(tier):
         # exhaustive part: every string of the grammar must have been enumerated in every flavour that ran
         'lit.enumerated': NLIT * nf,
         'lit.ratFromString.checked': (NLIT - NLIT_ZERO_DEN_MAX) * nf,
-        'lit.lp-rational.checked': (100000 if th else 3000) * nf,
-        'lit.mps-rational.checked': (100000 if th else 3000) * nf,
-        'lit.lp-real.checked': (80000 if th else 2500) * nf,
-        'lit.mps-real.checked': (80000 if th else 2500) * nf,
-        'litrand.ratFromString.checked': 300 * nf,
-        'rt.optimum_checked': (20000 if th else 1500) * nf,
-        'norm.ranged_rows_split': 200 * nf,
-        'norm.dropped_columns': 100 * nf,
-        'norm.mps_max_negated': 100 * nf,
-        'norm.free_rows_written': 50 * nf,
-        'rt.scaled.isScaled_true': 100 * nf,
-        'rt.with_intvars': 100 * nf,
-        'dual.optimum_checked': (5000 if th else 500) * nf,
+        'lit.lp-rational.checked': (100000 if th else 8000) * nf,
+        'lit.mps-rational.checked': (100000 if th else 8000) * nf,
+        'lit.lp-real.checked': (80000 if th else 6000) * nf,
+        'lit.mps-real.checked': (80000 if th else 6000) * nf,
+        'litrand.ratFromString.checked': (20000 if th else 1000) * nf,
+        'rt.optimum_checked': (30000 if th else 1500) * nf,
+        'norm.ranged_rows_split': (10000 if th else 500) * nf,
+        'norm.dropped_columns': (6000 if th else 300) * nf,
+        'norm.mps_max_negated': (6000 if th else 300) * nf,
+        'norm.free_rows_written': (6000 if th else 300) * nf,
+        'rt.scaled.isScaled_true': (6000 if th else 300) * nf,
+        'rt.with_intvars': (6000 if th else 300) * nf,
+        'dual.optimum_checked': (2000 if th else 100) * nf,
+        'distinct:routecell': 48,
     }
     for fmt in ('lp', 'mps'):
         for api in ('real', 'rational'):
             for nm in ('usernames', 'defaultnames'):
                 for w in ('wzo0', 'wzo1'):
-                    mn['rt.cell.%s.%s.%s.%s' % (fmt, api, nm, w)] = (400 if th else 40) * nf
+                    mn['rt.cell.%s.%s.%s.%s' % (fmt, api, nm, w)] = (1500 if th else 80) * nf
     return mn
 
 
@@ -101,7 +102,7 @@ PROPS = {
                    'independently certified optimum. The dual writer is checked on LPs with a certified finite optimum. Sampling of an '
                    'infinite input space: held-on-what-was-observed. One sub-space is covered EXHAUSTIVELY in every run: all %d strings of '
                    'length <= %d of the literal grammar over {+,-,0,1,5,9,.,e,E,/} through soplex::ratFromString (and all of them, thorough '
-                   'tier, or a 1-in-4 (opt) / 1-in-16 (asan) hash sample plus every literal of length <= 4, quick tier, through LP and MPS files in '
+                   'tier, or a 1-in-3 (opt) / 1-in-12 (asan) hash sample plus every literal of length <= 4, quick tier, through LP and MPS files in '
                    'rational and real read mode).' % (NLIT, LIT_MAXLEN),
         level_note='trusts GMP arithmetic, a 40-line independent literal parser (cross-checked against glibc strtod in real mode), the exact '
                    'reference simplex (certificates re-checked), and name-based matching of rows/columns; real MPS files are compared to '
